@@ -541,6 +541,14 @@ func c03TTLPositive(p *Prog, r *Report, rule string, tl *types.Named) {
 			lb, known := LowerBound(p, call.Common().Args[3])
 			e := truncate(BuildExpr(p, call.Common().Args[3], nil).String(), 120)
 			r.Paths++
+			capv, capped := UpperCapIn(p, call.Common().Args[3], 0)
+			r.Check(!capped, rule, "ratelimit.(*TokenLimiter)."+m.Name()+": the entry lifetime grows with the longest rate period (no constant cap)", p.InstrPos(call),
+				"no min(..., const) / cap-from-above in the definition of the ttl argument", "the ttl argument is bounded from above by a constant ("+func() string {
+					if capv != nil {
+						return truncate(capv.String(), 80)
+					}
+					return ""
+				}()+"): for rates whose burst takes longer than that to refill (hourly / daily quotas) an idle source is forgotten before its bucket has refilled and returns with a fresh full burst")
 			r.Check(known && lb >= 1, rule, "ratelimit.(*TokenLimiter)."+m.Name()+": the entry lifetime is at least one second for every rate", p.InstrPos(call),
 				fmt.Sprintf("lower bound of the ttl argument = %d (interval arithmetic over its definition; maxPeriod >= 0 is an inductive invariant of its stores)", lb),
 				"the ttl argument "+e+" is not provably >= 1: for a rate set whose longest period is shorter than a second it is 0, TTLMap.Set refuses it and every request of that rate is answered with an error instead of being limited")
